@@ -39,12 +39,15 @@ LEAVES_FULL = (
     + ["\\" + c for c in "|[.-nr()*+?\\]{}t"]
     + ["."]
 )
-LEAVES_REDUCED = ["a", "b", LF, EMO, "&", "\\|", "\\.", "\\n", "\\(", "."]
+LEAVES_REDUCED = ["a", LF, EMO, "&", "\\|", "\\.", "."]
+LEAVES_TINY = ["a", LF, "&", "\\.", "."]
 # class items; "-" is added by the generator in first/last position only
 ITEMS_FULL = ["a", "b", "1", "|", "&", "~", ".", EMO, LF, LS, "\\[", "\\n", "a-b", "1-a", "\\p{L}", "\\P{Nd}"]
-ITEMS_REDUCED = ["a", "|", "&", ".", "\\[", "a-b", "\\p{L}", "\\P{Nd}"]
+ITEMS_REDUCED = ["a", "|", "&", "a-b", "\\p{L}", "\\P{Nd}"]
+ITEMS_TINY = ["a", "&", "|", "\\P{Nd}"]
 QUANTS_FULL = ["?", "*", "+", "{2}", "{1,2}", "{2,}"]
-QUANTS_REDUCED = ["?", "*", "+", "{2}", "{1,2}"]
+QUANTS_REDUCED = ["?", "*", "{2}", "{1,2}"]
+QUANTS_TINY = ["*", "{1,2}"]
 # fixed class shapes beyond two items (the property's own example is [a||b])
 EXTRA_ATOMS = ["[a&&b]", "[a||b]", "[a~~b]", "[^a&&b]", "[a&&]", "[a||]", "[a~~]"]
 
@@ -129,25 +132,42 @@ def make_enumerator(leaves: List[str], items: List[str], quants: List[str], extr
     return regexp
 
 
+def _describe(leaves: List[str], items: List[str], quants: List[str]) -> str:
+    return "%d leaves %r, %d class items %r, quantifiers %r" % (len(leaves), leaves, len(items) + 1, items + ["-"], quants)
+
+
 def enumerate_patterns(tier: str) -> Tuple[List[str], dict]:
+    """Patterns in order of node count (so a run cut short by the time budget has done the small ones)."""
     full = make_enumerator(LEAVES_FULL, ITEMS_FULL, QUANTS_FULL, EXTRA_ATOMS)
     seen: Dict[str, None] = {}
     if tier == "quick":
         for n in range(4):
             for p in full(n):
                 seen.setdefault(p)
-        bounds = {"max_nodes": 3, "leaf_set": "full (%d leaves, %d class items, %d quantifiers)" % (len(LEAVES_FULL), len(ITEMS_FULL) + 1, len(QUANTS_FULL))}
+        tiny = make_enumerator(LEAVES_TINY, ITEMS_TINY, QUANTS_TINY, [])
+        for n in (4, 5):
+            for p in tiny(n):
+                seen.setdefault(p)
+        bounds = {
+            "max_nodes": 5,
+            "leaf_sets": {
+                "<= 3 nodes": "full: " + _describe(LEAVES_FULL, ITEMS_FULL, QUANTS_FULL) + ", extra atoms %r" % EXTRA_ATOMS,
+                "4 and 5 nodes": "tiny: " + _describe(LEAVES_TINY, ITEMS_TINY, QUANTS_TINY),
+            },
+        }
     else:
         for n in range(5):
             for p in full(n):
                 seen.setdefault(p)
-        red = make_enumerator(LEAVES_REDUCED, ITEMS_REDUCED, QUANTS_REDUCED, ["[a&&b]", "[a||b]"])
+        red = make_enumerator(LEAVES_REDUCED, ITEMS_REDUCED, QUANTS_REDUCED, ["[a&&b]"])
         for p in red(5):
             seen.setdefault(p)
         bounds = {
             "max_nodes": 5,
-            "leaf_set": "full up to 4 nodes (%d leaves, %d class items, %d quantifiers); 5-node patterns over the reduced set (%d leaves %r, %d class items, %d quantifiers)"
-            % (len(LEAVES_FULL), len(ITEMS_FULL) + 1, len(QUANTS_FULL), len(LEAVES_REDUCED), LEAVES_REDUCED, len(ITEMS_REDUCED) + 1, len(QUANTS_REDUCED)),
+            "leaf_sets": {
+                "<= 4 nodes": "full: " + _describe(LEAVES_FULL, ITEMS_FULL, QUANTS_FULL) + ", extra atoms %r" % EXTRA_ATOMS,
+                "5 nodes": "reduced: " + _describe(LEAVES_REDUCED, ITEMS_REDUCED, QUANTS_REDUCED),
+            },
         }
     return list(seen), bounds
 
@@ -184,6 +204,9 @@ def jsonpath_literal(s: str) -> str:
 
 _DOUBLED = _stdre.compile(r"\[[^\]]*?(&&|\|\||~~)")
 _OPNAME = {"&&": "ampersand", "||": "pipe", "~~": "tilde"}
+_NEG1 = r"\[\^(?:\\[pP]\{\w+\}|\\.|[^\]\\])\]"
+# two adjacent alternation branches that are each exactly a negated one-item class
+_NEG_ALT = _stdre.compile(r"(?:^|[|(])" + _NEG1 + r"\|" + _NEG1 + r"(?:$|[|)])", _stdre.S)
 
 
 def _dot_outside_class(p: str) -> bool:
@@ -212,6 +235,8 @@ def classify(p: str, s: str, m_ref: bool, m_obs: bool, s_ref: bool, s_obs: bool)
         if m_ok != s_ok:
             return "c11-search-match-disagree-on-class-with-" + op
         return "c11-both-wrong-on-class-with-" + op
+    if _NEG_ALT.search(p):
+        return "c11-alternation-of-negated-single-char-classes"
     has_nl = LF in s or CR in s
     too_many = (m_obs and not m_ref) or (s_obs and not s_ref)
     if has_nl and _dot_outside_class(p) and too_many:
@@ -542,11 +567,11 @@ def run(tier: str, seed: int) -> dict:
             raise AssertionError("generator produced ^/$: %r" % p)
     unjudged_chars = _category_unjudged_chars()
     subjects = enumerate_subjects(max_len)
-    find_every = 1 if quick else 5
+    find_every = 2 if quick else 5
     indexed = list(enumerate(patterns))
-    # interleave so that every chunk has cheap and expensive patterns
-    nchunks = max(16, len(indexed) // 200)
-    chunks = [indexed[i::nchunks] for i in range(nchunks)]
+    # consecutive slices in enumeration (= node count) order, handed out in that order
+    size = max(1, min(100, len(indexed) // 64))
+    chunks = [indexed[i : i + size] for i in range(0, len(indexed), size)]
     jobs = [(c, max_len, find_every, deadline, unjudged_chars) for c in chunks if c]
     ctx = mp.get_context("fork")
     with ctx.Pool(16) as pool:
